@@ -14,7 +14,7 @@ trap undo EXIT
 git -C /repo apply "$patch" || { echo "patch does not apply to /repo"; exit 2; }
 out="$ROOT/out/seeded/$id"; mkdir -p "$out/evidence"
 for c in "$@"; do
-  VERIF_OUT="$out" VERIF_EVIDENCE_DIR="$out/evidence" "$ROOT/run" "$c" quick > "$out/$c.log" 2>&1; rc=$?
+  VERIF_OUT="$out" VERIF_EVIDENCE_DIR="$out/evidence" "$ROOT/run" "$c" "${TIER:-quick}" > "$out/$c.log" 2>&1; rc=$?
   case $rc in
     1) echo "$id $c CAUGHT: $(grep -m1 '^violation' "$out/$c.log" | cut -c1-220)";;
     0) echo "$id $c MISSED";;
